@@ -55,8 +55,10 @@ fn conv<T>(r: Result<lexpr::parse::Result<T>, Abnormal>, to_value: impl FnOnce(T
     match r {
         Ok(Ok(v)) => {
             let v = to_value(v);
-            if let Some(v) = &v {
-                check_utf8_value(v, mon, what);
+            if let Some(val) = &v {
+                if !check_utf8_value(val, mon, what) {
+                    return Err(PErr { cat: Cat::Syntax, msg: "<value with an ill-formed str, dropped>".into(), loc: None, io_id: None });
+                }
             }
             Ok(v)
         }
